@@ -329,6 +329,31 @@ theorem run_cl_within_delivered (cfg : Cfg) (pre segs : List Str) (k n : Nat) (m
   exact run_cl_within_gen cfg _ segs (step_run_init cfg pre) hp k n m t v h hostv hk hfit hparse hka hhost
     (cl_at_limit_ok _ (n + 1) h cv hcl hv hn hle hte) hall
 
+/-- the same for a non-persistent request (`Connection: close`, HTTP/1.0, `no_keep_alive`): delivered whole, finished and
+    answered; then the server closes the connection, and that is the whole run -/
+theorem run_cl_within_delivered_close (cfg : Cfg) (pre segs : List Str) (k n : Nat) (m t v : Str) (h : Hdrs)
+    (hostv cv : Str)
+    (hp : (run cfg init pre).phase = .headers)
+    (hk : findHeadEnd ((run cfg init pre).buf ++ segs.flatten) = some k) (hfit : k ≤ cfg.maxHeader)
+    (hparse : parseHead (((run cfg init pre).buf ++ segs.flatten).take k) = some ((m, t, v), h))
+    (hka : canKeepAlive cfg.noKeepAlive m v h = some false) (hhost : hostCheck v h = some hostv)
+    (hcl : hGet h kContentLength = some cv) (hv : clPick cv = some cv) (hn : parseInt cv = some (n + 1))
+    (hte : hGet h kTransferEncoding = none)
+    (hle : n + 1 ≤ effLimit cfg (run cfg init pre).idx)
+    (hall : k + (n + 1) ≤ ((run cfg init pre).buf ++ segs.flatten).length) :
+    (run cfg init (pre ++ segs)).phase = .closed ∧
+      (run cfg init (pre ++ segs)).out = [.closed, .w200, .fin, .data (run cfg init pre).idx
+          ((((run cfg init pre).buf ++ segs.flatten).drop k).take (n + 1))] ++
+        (if hGet h kExpect = some k100Continue then [Ev.w100] else []) ++
+          .req m t v (hAll h) :: (run cfg init pre).out := by
+  rw [run_append]
+  exact run_cl_within_close_gen cfg _ segs (step_run_init cfg pre) hp k n m t v h hostv hk hfit hparse hka hhost
+    (cl_at_limit_ok _ (n + 1) h cv hcl hv hn hle hte) hall
+
+-- non-vacuity: `no_keep_alive`, limit 5, exactly 5 bytes
+example : (run { maxBody := 5, noKeepAlive := true } init [fiveByteReq]).out.take 4
+    = [.closed, .w200, .fin, .data 0 [1, 2, 3, 4, 5]] := by decide
+
 /-- chunked, within the limit (equality included): at a chunk-size line of any reachable run, a chunk whose declared
     size, added to the bytes already handed over for this request (`dataLen` of the trace), stays within the request's
     effective limit and which is completely buffered with its CRLF is handed over; the machine is at the next chunk-size
